@@ -3,7 +3,7 @@ import ast
 
 from ..model import func_nodes, norm, AnalysisError
 from ..cfg import calls_in, _walk_noscope
-from .util import (none_test, effect_nodes, calls_method_of, recv_call, stmt_of, parent, cfg_nodes, attr_stores)
+from .util import (none_test, effect_nodes, calls_method_of, recv_call, stmt_of, parent, cfg_nodes, attr_stores, nonempty_test)
 from .liveness import resolve_pred, manager_only
 from .timeouts import _item_name, _is_call_of_item
 
@@ -546,7 +546,8 @@ def _chain_shape(e, R, chain):
         if not (front or back):
             raise AnalysisError("map pipeline: the chain pops from an index this rule does not know")
         whiles = [n for s_ in outer.body for n in ast.walk(s_) if isinstance(n, ast.While)]
-        drained = len(whiles) == 1 and isinstance(whiles[0].test, ast.Name) and whiles[0].test.id == ev_ and all(any(c is x for x in ast.walk(whiles[0])) for c in pops) \
+        wt = nonempty_test(whiles[0].test) if len(whiles) == 1 else None
+        drained = wt is not None and wt[1] == "T" and isinstance(wt[0], ast.Name) and wt[0].id == ev_ and all(any(c is x for x in ast.walk(whiles[0])) for c in pops) \
             and all(isinstance(e.prog.parent.get(id(c)), ast.Yield) for c in pops)
         ordered = (front and not revs) or (back and len(revs) == 1 and not any(revs[0] is x for w_ in whiles for x in ast.walk(w_)))
         R.check(drained and ordered, "R-MAP-SHAPE", f"{ch.short}: yields every element of every chunk result, in order", ch.short,
